@@ -5,7 +5,10 @@
 
 package uasc
 
-import "github.com/gopcua/opcua/ua"
+import (
+	"github.com/gopcua/opcua/ua"
+	"github.com/gopcua/opcua/uapolicy"
+)
 
 // VerifSetChannelSecurity overwrites the SecurityPolicyURI and SecurityMode of
 // the channel configuration this instance reads in signAndEncrypt /
@@ -15,4 +18,33 @@ import "github.com/gopcua/opcua/ua"
 func (v *VerifInstance) VerifSetChannelSecurity(policyURI string, mode ua.MessageSecurityMode) {
 	v.C.sc.cfg.SecurityPolicyURI = policyURI
 	v.C.sc.cfg.SecurityMode = mode
+}
+
+// VerifAddInstance appends a symmetric channel instance (keys derived from the
+// two nonces) to the instances kept for channelID, as a token renewal does; the
+// newest instance is the last one.
+func (s *SecureChannel) VerifAddInstance(channelID, tokenID uint32, localNonce, remoteNonce []byte) error {
+	algo, err := uapolicy.Symmetric(s.cfg.SecurityPolicyURI, localNonce, remoteNonce)
+	if err != nil {
+		return err
+	}
+	inst := newChannelInstance(s)
+	inst.secureChannelID = channelID
+	inst.securityTokenID = tokenID
+	inst.state = channelActive
+	inst.algo = algo
+	s.instancesMu.Lock()
+	s.instances[channelID] = append(s.instances[channelID], inst)
+	s.instancesMu.Unlock()
+	return nil
+}
+
+// VerifSetOpening installs (or removes) the opening instance readChunk uses
+// for OPN chunks.
+func (s *SecureChannel) VerifSetOpening(on bool) {
+	if on {
+		s.openingInstance = newChannelInstance(s)
+	} else {
+		s.openingInstance = nil
+	}
 }
